@@ -37,6 +37,7 @@ def process_chunk_c19(args):
         for i, rec in enumerate(recs):
             for v in range(nvar):
                 c = l3.Concretiser(seed, chunk_no * 100000 + i, v)
+                c.pad_arrays = True
                 # the first pass may meet any formatting (a log that went through jq / a shipper: blanks after ',' and ':'); the second pass
                 # always meets the tool's own
                 lines.append((rec, jsonx.dumps(c.line(rec["in"], len(lines)), sep=((',', ':'), (', ', ': '), (',', ': '))[v % 3])))
